@@ -267,7 +267,7 @@ fn inline_refs(def: &mut DefSpec) -> Option<()> {
                 Some(s) => {
                     let wrapped = if uni { format!("(?u:{s})") } else { format!("(?-u:{s})") };
                     done.push((def.subpatterns[i].name.clone(), wrapped));
-                    def.subpatterns[i].inlined = Some(LitSpec::str(s));
+                    def.subpatterns[i].inlined = Some(if def.subpatterns[i].lit.bytes { LitSpec::bytes(s.into_bytes()) } else { LitSpec::str(s) });
                     progress = true;
                 }
                 None => still.push(i),
@@ -324,6 +324,43 @@ pub fn harvest() -> Vec<Harvested> {
                     continue;
                 }
                 out.push(Harvested { origin: format!("{rel}::{}#{ordinal}", e.ident), def, reduced });
+            }
+        }
+    }
+    out
+}
+
+/// The same enums as source text (token rendering of the whole item, callbacks, payloads and all attributes kept), for the
+/// checks that take enum sources rather than automata (C16 determinism, C17 logos-cli, C19 panic freedom). Includes the
+/// suite's must-fail definitions.
+pub fn harvest_raw() -> Vec<(String, String)> {
+    use quote::ToTokens;
+    let root = repo_root();
+    let mut files = Vec::new();
+    for sub in ["tests/tests", "tests/benches", "examples", "logos-codegen/tests/data", "logos-cli/tests/data", "book/src"] {
+        rs_files(&root.join(sub), &mut files, &["rs", "md"]);
+    }
+    files.push(root.join("README.md"));
+    let mut out: Vec<(String, String)> = Vec::new();
+    for f in files {
+        let Ok(text) = std::fs::read_to_string(&f) else { continue };
+        let rel = f.strip_prefix(&root).unwrap_or(&f).display().to_string();
+        let sources: Vec<String> = if rel.ends_with(".md") { md_blocks(&text) } else { vec![text] };
+        let mut ordinal = 0usize;
+        for src in sources {
+            let Ok(file) = syn::parse_file(&src) else { continue };
+            let mut enums = Vec::new();
+            collect_enums(&file.items, &mut enums);
+            for e in enums {
+                if !derives_logos(&e) {
+                    continue;
+                }
+                ordinal += 1;
+                let text = e.to_token_stream().to_string();
+                if out.iter().any(|(_, t)| *t == text) {
+                    continue;
+                }
+                out.push((format!("{rel}::{}#{ordinal}", e.ident), text));
             }
         }
     }
